@@ -301,7 +301,21 @@ def build(seed, tier, ending, status, mode, g, atc_exit=None, sweep=False):
         pass
     else:
         raise kernel.HarnessError('unknown ending ' + eid)
-    plan = {'format': 1, 'property': PROPERTY, 'engine': 'c02', 'run_seed': seed, 'tier': tier,
+    # orthogonal wrappings that must not change the verdict: an identity preprocessor, a valid suite with contents
+    combos = []
+    if not sweep and not argv_extra and ending['stage'] != 'usage' and eid not in (
+            'unreadable_case', 'suite_syntax_error', 'suite_missing_include', 'suite_option_ok'):
+        if g.random() < 0.3:
+            argv_extra = argv_extra + ['--preprocessor', 'pp -i']
+            procs['pp'] = {'exit': 0, 'stdout': '@CASE@'}
+            combos.append('identity_preprocessor')
+        if g.random() < 0.3:
+            files['home/ok.suite'] = '[setup]\n% suite-setup\n[cleanup]\n% suite-cleanup\n'
+            procs['suite-setup'] = {'exit': 0}
+            procs['suite-cleanup'] = {'exit': 0}
+            argv_extra = argv_extra + ['--suite', 'ok.suite']
+            combos.append('valid_suite')
+    plan = {'format': 1, 'property': PROPERTY, 'engine': 'c02', 'run_seed': seed, 'tier': tier, 'combos': combos,
             'knobs': {'mem_buff_size': g.choice([1, 7, 8192])}, 'entry': 'cli', 'status': status, 'mode': mode,
             'ending': ending, 'case': case, 'procs': procs, 'faults': faults, 'fsfaults': fsfaults, 'files': files,
             'argv_extra': argv_extra, 'sweep': sweep}
@@ -510,8 +524,9 @@ def signature(plan, hist):
     e = plan['ending']
     x = expected(plan)
     code = plan['procs']['atc'].get('exit', 0)
-    return True, (e['id'], e['phase'], e.get('step'), plan['status'], plan['mode'], x['verdict'],
-                  code if plan.get('sweep') else min(code, 3))
+    return True, (e['id'], e['phase'], e.get('step'), e.get('how'), plan['status'], plan['mode'], x['verdict'],
+                  code if plan.get('sweep') else min(code, 3), tuple(plan.get('combos', [])),
+                  plan['knobs']['mem_buff_size'])
 
 
 def sample_view(plan, hist):
